@@ -64,6 +64,26 @@ EXPLICIT = [
     ["D", [[["T", [["f", "nan"], ["i", "1"]]], ["i", "1"]], [["T", [["f", "0.5"], ["i", "2"]]], ["i", "2"]], [["T", [["f", "1.5"], ["i", "0"]]], ["i", "3"]]]],
     ["S", [["T", [["f", "nan"], ["i", "1"]]], ["T", [["f", "0.5"], ["i", "2"]]], ["T", [["f", "1.5"], ["i", "0"]]], ["T", [["f", "0.25"], ["i", "7"]]]]],
     ["F", [["T", [["s", "k"], ["f", "nan"]]], ["T", [["s", "k"], ["f", "0.5"]]], ["T", [["s", "k"], ["f", "1.5"]]], ["T", [["s", "j"], ["f", "2.5"]]]]],
+    # instances of dict subclasses (pickled through __reduce_ex__: the items reach the pickler as a one-shot iterator) whose keys
+    # cannot be sorted, differing in content; next to the plain dict and the empty instance
+    ["D", [[["s", "a"], ["i", "1"]], [["i", "2"], ["i", "3"]]], "UDict"], ["D", [[["s", "zz"], ["i", "1"]], [["i", "5"], ["i", "3"]]], "UDict"], ["D", [], "UDict"],
+    ["D", [[["s", "a"], ["i", "1"]], [["i", "2"], ["i", "3"]]], "OrderedDict"], ["D", [[["s", "zz"], ["i", "1"]], [["i", "5"], ["i", "3"]]], "OrderedDict"], ["D", [], "OrderedDict"],
+    ["D", [[["s", "a"], ["i", "1"]], [["i", "2"], ["i", "3"]]], "defaultdict"], ["D", [[["s", "zz"], ["i", "1"]], [["i", "5"], ["i", "3"]]], "defaultdict"], ["D", [], "defaultdict"],
+    ["D", [[["s", "a"], ["i", "1"]], [["i", "2"], ["i", "3"]]]], ["D", [[["s", "a"], ["i", "1"]], [["s", "b"], ["i", "3"]]], "UDict"], ["D", [[["s", "a"], ["i", "1"]], [["s", "b"], ["i", "3"]]]],
+    ["D", [[["f", "nan"], ["i", "1"]], [["f", "nan"], ["i", "2"]]], "UDict"], ["D", [[["F", [["i", "1"]]], ["i", "1"]], [["F", [["i", "2"]]], ["i", "2"]], [["F", [["i", "1"], ["i", "2"]]], ["i", "4"]]], "UDict"],
+    # instances of set / frozenset subclasses (pickled through __reduce_ex__: the members arrive as a list in iteration order)
+    ["S", [["s", "a"], ["s", "b"], ["s", "c"], ["s", "d"], ["s", "e"]], "USet"], ["F", [["s", "a"], ["s", "b"], ["s", "c"], ["s", "d"], ["s", "e"]], "UFrozenSet"],
+    ["S", [["i", "1"], ["i", "9"], ["i", "17"], ["i", "25"], ["i", "33"]], "USet"], ["S", [["i", "1"], ["s", "a"], ["n"], ["y", "61"]], "USet"], ["S", [], "USet"], ["F", [], "UFrozenSet"],
+    ["S", [["s", "a"], ["s", "b"], ["s", "c"], ["s", "d"], ["s", "e"]]], ["L", [["S", [["F", [["s", "p"], ["s", "q"], ["s", "r"]], "UFrozenSet"], ["s", "x"]]]]],
+    # decimals: comparing with a NaN raises InvalidOperation (an ArithmeticError, not a TypeError)
+    ["D", [[["d", "NaN"], ["i", "1"]], [["d", "1"], ["i", "2"]], [["d", "2.5"], ["i", "3"]]]], ["S", [["d", "NaN"], ["d", "1"], ["d", "2.5"]]], ["D", [[["d", "1"], ["i", "2"]], [["d", "2.5"], ["i", "3"]]]],
+    ["D", [[["T", [["d", "NaN"], ["i", "1"]]], ["i", "1"]], [["T", [["d", "1"], ["i", "1"]]], ["i", "2"]]]], ["L", [["d", "1"], ["d", "1.0"], ["i", "1"]]],
+    # keys with one digest (distinct nan objects) whose VALUES cannot be sorted, or are only partially ordered
+    ["D", [[["f", "nan"], ["S", [["i", "1"]]]], [["f", "nan"], ["S", [["i", "2"]]]], [["f", "nan"], ["S", [["i", "1"], ["i", "2"]]]]]],
+    ["D", [[["f", "nan"], ["D", [[["i", "1"], ["i", "1"]]]]], [["f", "nan"], ["D", [[["i", "2"], ["i", "2"]]]]]]],
+    ["D", [[["f", "nan"], ["L", [["i", "1"], ["s", "a"]]]], [["f", "nan"], ["L", [["s", "a"], ["i", "1"]]]], [["f", "nan"], ["n"]]]],
+    ["D", [[["f", "nan"], ["F", [["s", "a"]]]], [["f", "nan"], ["F", [["s", "b"]]]], [["f", "nan"], ["F", [["s", "a"], ["s", "b"]]]], [["s", "k"], ["F", []]]]],
+    ["D", [[["T", [["f", "nan"]]], ["c", "1.0", "0.0"]], [["T", [["f", "nan"]]], ["i", "1"]], [["T", [["f", "nan"]]], ["i", "2"]]]],
     # the same large payload twice in one value (shared vs distinct equal objects must hash alike)
     ["L", [["Z", "bytes", 1 << 20, 7], ["Z", "bytes", 1 << 20, 7]]],
     ["T", [["Z", "zeros", (1 << 20) + 17, 0], ["i", "1"], ["Z", "zeros", (1 << 20) + 17, 0]]],
